@@ -41,6 +41,13 @@ def run(ctx, tier, seed, shard, nshards):
               nontrivial=nontrivial, exclude=exclude)
     if shard == 0:
         directed(ctx)
+        # two bases x {with precondition, without, absent} x sub-class {overrides, overrides with own precondition,
+        # inherits} x member kind, a postcondition at every level: every base's postcondition must gate the return
+        from vf.props import c04
+
+        for case in c04.multi_base_matrix():
+            D.run_one(ctx, case, JUDGE, exclude=exclude, nontrivial=nontrivial)
+        ctx.count("multi_base_matrix_cells", 7 * 27)
 
 
 def replay(ctx, case):
